@@ -427,6 +427,11 @@ func c07(c *Ctx) {
 			if isContract {
 				// what contract execution can do to a contract account
 				kind = []int{0, 0, 4, 4, 4, 7, 6, 13, 14, 12}[c.Rnd.Intn(10)]
+				if c.Rnd.Intn(12) == 0 {
+					// the journal API does not stop an account with code from defining assets (in the deployed flows only
+					// externally owned accounts do): lets SetSuicide meet asset roots
+					kind = []int{5, 8, 8}[c.Rnd.Intn(3)]
+				}
 				if exactOnly {
 					kind = []int{0, 4, 4, 7, 6}[c.Rnd.Intn(5)]
 				}
